@@ -17,10 +17,19 @@ fn instance(r: &mut Rng, instr: &str) -> Option<Vec<u8>> {
         "bval2" => bval_st(r, 2, a, 7, None).wit(),
         "bval3" => bval_st(r, 3, a, 7, None).wit(),
         "cap" => cap_below(r, 2, 5, 9).wit(),
+        "cap-at" => cap_at(r, 1_000_000, 400, 3, 7).wit(),
+        // the permitted "no auditor" case: last key (and so the last handle) is the identity
+        "val2-noaud" | "val3-noaud" | "bval2-noaud" | "bval3-noaud" => {
+            let n = if instr.contains('3') { 3 } else { 2 };
+            let mut ps: Vec<curve25519_dalek::ristretto::RistrettoPoint> = (0..n).map(|_| kp(r).p).collect();
+            ps[n - 1] = curve25519_dalek::traits::Identity::identity();
+            if instr.starts_with('b') { bval_st(r, n, a, 7, Some(ps)).wit() } else { val_st(r, n, a, Some(ps)).wit() }
+        }
         _ => return None,
     };
     let av: Vec<&str> = wit.split_whitespace().collect();
-    match construct(instr, &av) { Some(Ok(b)) => Some(b), _ => None }
+    let base = instr.split('-').next().unwrap_or(instr);
+    match construct(base, &av) { Some(Ok(b)) => Some(b), _ => None }
 }
 
 fn range_instance(r: &mut Rng, w: usize) -> Option<Vec<u8>> {
@@ -60,10 +69,30 @@ pub fn gen_c07(o: &mut Out, tier: &str, seed: u64) {
     let mut r = Rng::new(seed, "c07");
     let th = tier == "thorough";
     let n_inst = if th { 4 } else { 1 };
-    let sig = ["zero", "pubkey", "ctct", "ctcmt", "val2", "val3", "bval2", "bval3", "cap"];
-    for instr in sig {
+    let sig = ["zero", "pubkey", "ctct", "ctcmt", "val2", "val3", "bval2", "bval3", "cap",
+               "val2-noaud", "val3-noaud", "bval2-noaud", "bval3-noaud", "cap-at"];
+    for variant in sig {
+        let instr = variant.split('-').next().unwrap_or(variant);
+        let special = variant != instr;
         for k in 0..n_inst {
-            let Some(b) = instance(&mut r, instr) else { continue };
+            let Some(b) = instance(&mut r, variant) else { continue };
+            if special {
+                // special statements (identity auditor key, fee at the cap): accepted, and every statement bit
+                // still bound; the challenge values are compared with the model's on each of these
+                o.op_exp(&format!("{}.accepted", variant), "A", &format!("verify {} {}", instr, hex(&b)));
+                for bit in positions(&mut r, ctx_len(instr), false, true) {
+                    let mut m = b.clone();
+                    m[bit / 8] ^= 1 << (bit % 8);
+                    o.op_exp(&format!("{}.bitflip", variant), "R", &format!("verify {} {}", instr, hex(&m)));
+                }
+                if let Some(b2) = instance(&mut r, variant) {
+                    let cl = ctx_len(instr);
+                    let mut m = b2[..cl].to_vec();
+                    m.extend(&b[cl..]);
+                    o.op_exp(&format!("{}.other-statement", variant), "R", &format!("verify {} {}", instr, hex(&m)));
+                }
+                continue;
+            }
             o.op_exp(&format!("{}.accepted", instr), "A", &format!("verify {} {}", instr, hex(&b)));
             // cap context: max_value (8 bytes at 96..104) is not 32-aligned: flip all its bits explicitly
             let mut pos = positions(&mut r, b.len(), th && k == 0, false);
